@@ -5,7 +5,7 @@ from vf import gen, schema
 
 PROP = 'C20'
 REJECTIONS = ['wrong-type', 'outside-enum', 'non-numeric', 'wrong-ref-class', 'bad-origin-ref', 'bad-cast-dtype',
-              'duplicate-dataset', 'unknown-keyword', 'name-not-str', 'bad-assign', 'frame-no-channels']
+              'duplicate-dataset', 'unknown-keyword', 'name-not-str', 'bad-assign', 'frame-no-channels', 'units-on-unitless']
 FAILED_WRITES = ['missing-data', 'inconsistent-dimension', 'flush-error', 'hc-breach-at-write', 'unequal-rows',
                  'index-not-1d', 'hc-nonuniform-index']
 META = {
@@ -123,6 +123,16 @@ def bad_op(r, t, rk, ctx_refs, existing_ops):
             return None
         op['dataset_name'] = prev[0].get('dataset_name') or prev[0]['name']
         # a rejected channel must not keep its data either
+    elif rk == 'units-on-unitless':
+        # units given (through a dict / AttrSetup) to an attribute that cannot carry units: refused with a RuntimeError
+        f = first(('text', 'ident', 'status'))
+        if f is None:
+            return None
+        kw, k, m = f
+        val = {'text': 'some text', 'ident': 'AN-IDENT', 'status': 1}[k]
+        if (t, kw) in gen.HARD_ENUMS:
+            return None
+        a[kw] = {'$setup': {'value': [val] if m else val, 'units': 'm'}, 'route': r.choice(['dict', 'AttrSetup'])}
     elif rk == 'unknown-keyword':
         a['no_such_keyword'] = 1
     elif rk == 'name-not-str':
